@@ -1,10 +1,22 @@
-import GrinVerif.Model.Seg
+import GrinVerif.Lemmas.SegTree
+import GrinVerif.Lemmas.SegNoPanic
+import GrinVerif.Lemmas.SegExtra
+import GrinVerif.Lemmas.SegComplete
+import GrinVerif.Lemmas.SegPeaks
 /-! # C16 — state segments are sound; state sync never finalises other roots
 
-Property theorems only (helper lemmas live in `Lemmas/Seg*.lean`). -/
+Property theorems only (helper lemmas live in `Lemmas/Seg*.lean`; model `Model/Seg.lean`).
+
+Reading guide.  `Segment.validate hf s size bm root` is the model of `Segment::validate`
+(`validateWith` of `validate_with`, the merged output root); `segReads hf s size bm` is the list
+of everything the computation of the segment root *reads* of the segment, in order: `Ev.leaf pos
+data` for every leaf whose data is required and `Ev.hash pos h` for every hash looked up through
+`get_hash`; `proofLen id size` is the number of proof hashes `reconstruct_root` consumes.
+`Inj hf` is what collision resistance of the two hash shapes gives (for equal index). -/
 namespace GV.Props.C16
 open GV GV.Pmmr GV.Seg
 
+section Finalise
 variable {H : Type} [DecidableEq H]
 
 /-- `validate_complete_state` finalises (commits the new body head) only when the roots of the
@@ -34,5 +46,237 @@ theorem finalise_iff (assembled hdr : Roots H) (full stopped : Bool) :
 -- non-vacuity: equal roots + successful validation finalise; a differing kernel root never does
 example : validateCompleteState (⟨1, 2, 3⟩ : Roots Nat) ⟨1, 2, 3⟩ true false = .finalised := by decide
 example : validateCompleteState (⟨1, 2, 3⟩ : Roots Nat) ⟨1, 2, 4⟩ true false = .invalidRoot := by decide
+
+end Finalise
+
+variable {α H : Type}
+
+/-- the free term algebra of the two hash shapes: the canonical injective "hash function" -/
+inductive HTerm (α : Type)
+  | leaf (idx : Nat) (x : α)
+  | node (idx : Nat) (l r : HTerm α)
+
+-- non-vacuity of `Inj`: the hypothesis of the soundness theorems is satisfiable
+example : Inj (⟨HTerm.leaf, HTerm.node⟩ : HashFn Nat (HTerm Nat)) :=
+  ⟨fun _ _ _ h => by injection h, fun _ _ _ _ _ h => by injection h with _ h1 h2; exact ⟨h1, h2⟩⟩
+
+/-! ## Nothing panics (repaired `Segment::root`, commit 22ca8fd14) -/
+
+/-- `Segment::validate` returns `Ok` or a `SegmentError` for every segment, identifier (any
+`height : u8`, `idx : u64`, including those whose range is empty, lies outside the MMR or is
+computed with wrapped arithmetic), MMR size and bitmap: it never panics. -/
+theorem segment_validate_no_panic (hf : HashFn α H) [DecidableEq H] (s : Segment α H) (size : Nat)
+    (bm : Option (Nat → Bool)) (mmrRoot : H) : s.validate hf size bm mmrRoot ≠ .panic :=
+  validate_no_panic hf s size bm mmrRoot
+
+theorem segment_validate_with_no_panic (hf : HashFn α H) [DecidableEq H] (s : Segment α H)
+    (size : Nat) (bm : Option (Nat → Bool)) (mmrRoot : H) (hlp : Nat) (other : H) (left : Bool) :
+    s.validateWith hf size bm mmrRoot hlp other left ≠ .panic :=
+  validateWith_no_panic hf s size bm mmrRoot hlp other left
+
+theorem segment_first_unpruned_parent_no_panic (hf : HashFn α H) (s : Segment α H) (size : Nat)
+    (bm : Option (Nat → Bool)) : s.firstUnprunedParent hf size bm ≠ .panic :=
+  firstUnprunedParent_no_panic hf s size bm
+
+/-! ## Soundness: what validation reads is determined by the root -/
+
+/-- **Segment soundness (full segments).**  Fix an MMR size, a bitmap (or none) and a root.
+If a full segment `s1` (one that has a root of its own, i.e. is not completely pruned) and any
+other segment `s2` with the same identifier are both accepted by `validate`, then they agree on
+every leaf (position and data) and every hash (position and value) the reconstruction reads and
+on every proof hash it consumes.  Hence: take `s1` = the segment a node produced
+(`segment_complete…`); changing any leaf data or position, any hash the reconstruction depends
+on, or any consumed proof hash makes validation fail. -/
+theorem segment_sound (hf : HashFn α H) [DecidableEq H] (inj : Inj hf) (s1 s2 : Segment α H)
+    (hid : s1.id = s2.id) (size : Nat) (bm : Option (Nat → Bool)) (v : FullId s1.id size)
+    (mmrRoot r1 : H) (hroot : s1.root hf size bm = .ok (some r1))
+    (h1 : s1.validate hf size bm mmrRoot = .ok ()) (h2 : s2.validate hf size bm mmrRoot = .ok ()) :
+    segReads hf s1 size bm = segReads hf s2 size bm ∧
+    s1.proof.take (proofLen s1.id size) = s2.proof.take (proofLen s1.id size) :=
+  validate_inj hf inj s1 s2 hid size bm (wellFormed_full s1.id size v) mmrRoot r1 hroot h1 h2
+
+/-- the same for `validate_with` (output MMR: the PMMR root is hashed once more with the bitmap
+root; bitmap MMR: with the output PMMR root) -/
+theorem segment_sound_with (hf : HashFn α H) [DecidableEq H] (inj : Inj hf) (s1 s2 : Segment α H)
+    (hid : s1.id = s2.id) (size : Nat) (bm : Option (Nat → Bool)) (v : FullId s1.id size)
+    (mmrRoot r1 : H) (hlp : Nat) (other : H) (left : Bool)
+    (hroot : s1.root hf size bm = .ok (some r1))
+    (h1 : s1.validateWith hf size bm mmrRoot hlp other left = .ok ())
+    (h2 : s2.validateWith hf size bm mmrRoot hlp other left = .ok ()) :
+    segReads hf s1 size bm = segReads hf s2 size bm ∧
+    s1.proof.take (proofLen s1.id size) = s2.proof.take (proofLen s1.id size) :=
+  validateWith_inj hf inj s1 s2 hid size bm (wellFormed_full s1.id size v) mmrRoot r1 hlp other left
+    hroot h1 h2
+
+/-- Contrapositive, the form the property is phrased in: once one segment is accepted, a segment
+with the same identifier that differs in anything read (or in a consumed proof hash) is rejected. -/
+theorem tampered_segment_rejected (hf : HashFn α H) [DecidableEq H] (inj : Inj hf)
+    (s1 s2 : Segment α H) (hid : s1.id = s2.id) (size : Nat) (bm : Option (Nat → Bool))
+    (v : FullId s1.id size) (mmrRoot r1 : H) (hroot : s1.root hf size bm = .ok (some r1))
+    (h1 : s1.validate hf size bm mmrRoot = .ok ())
+    (hdiff : segReads hf s1 size bm ≠ segReads hf s2 size bm ∨
+      s1.proof.take (proofLen s1.id size) ≠ s2.proof.take (proofLen s1.id size)) :
+    s2.validate hf size bm mmrRoot ≠ .ok () := by
+  intro h2
+  obtain ⟨a, b⟩ := segment_sound hf inj s1 s2 hid size bm v mmrRoot r1 hroot h1 h2
+  rcases hdiff with h | h
+  · exact h a
+  · exact h b
+
+/-- **Soundness for any identifier whose range is a well-formed post-order range**
+(`WellFormedRange`: the loop of `root` leaves exactly the entries the end of `root` consumes —
+a fact about `(id, size)` alone, proven for full segments by `wellFormed_full`).
+Full statement intended: for *every* identifier with a non-empty range, i.e. also the final,
+not full segment.  Missing for that: the decomposition of the final range `[first, size-1]` into
+the subtrees of the peaks it contains (peaks arithmetic).  Named gap: `final_segment_range`. -/
+theorem segment_sound_partial (hf : HashFn α H) [DecidableEq H] (inj : Inj hf) (s1 s2 : Segment α H)
+    (hid : s1.id = s2.id) (size : Nat) (bm : Option (Nat → Bool)) (wf : WellFormedRange s1.id size)
+    (mmrRoot r1 : H) (hroot : s1.root hf size bm = .ok (some r1))
+    (h1 : s1.validate hf size bm mmrRoot = .ok ()) (h2 : s2.validate hf size bm mmrRoot = .ok ()) :
+    segReads hf s1 size bm = segReads hf s2 size bm ∧
+    s1.proof.take (proofLen s1.id size) = s2.proof.take (proofLen s1.id size) :=
+  validate_inj hf inj s1 s2 hid size bm wf mmrRoot r1 hroot h1 h2
+
+/-- Completely pruned segments carry one hash, their first unpruned parent.  If two accepted
+ones carry it at the same position, the hash and the consumed proof hashes are equal.
+(Two accepted segments may carry it at *different* levels of the branch; then one hash is the
+other hashed with proof hashes — not an elementwise equality; not stated.) -/
+theorem segment_sound_pruned (hf : HashFn α H) [DecidableEq H] (inj : Inj hf) (s1 s2 : Segment α H)
+    (hid : s1.id = s2.id) (size : Nat) (bm : Option (Nat → Bool)) (mmrRoot p1 p2 : H) (u : Nat)
+    (f1 : s1.firstUnprunedParent hf size bm = .ok (p1, u))
+    (f2 : s2.firstUnprunedParent hf size bm = .ok (p2, u))
+    (h1 : s1.validate hf size bm mmrRoot = .ok ()) (h2 : s2.validate hf size bm mmrRoot = .ok ()) :
+    p1 = p2 ∧
+    s1.proof.take (consumed size (s1.id.posRange size).1 (s1.id.posRange size).2 u) =
+      s2.proof.take (consumed size (s1.id.posRange size).1 (s1.id.posRange size).2 u) :=
+  validate_inj_pruned hf inj s1 s2 hid size bm mmrRoot p1 p2 u f1 f2 h1 h2
+
+/-! ## A leaf the bitmap marks unspent cannot be omitted -/
+
+/-- the bitmap marking a leaf (or its sibling) makes its data required -/
+theorem required_of_marked (b : Nat → Bool) (size pos0 : Nat)
+    (h : b ((nLeaves (pos0 + 1) - 1) % 2 ^ 32) = true) : required (some b) size pos0 = true := by
+  simp [required, h]
+
+/-- with no bitmap (kernel MMR, bitmap MMR) every leaf is required -/
+theorem required_no_bitmap (size pos0 : Nat) : required none size pos0 = true := rfl
+
+/-- **Every required leaf of the range must be present**: if `validate` accepts, then for every
+leaf position of the segment's range whose data is required (no bitmap; or the bitmap marks the
+leaf or its sibling unspent; or it is the last position of the MMR) the segment holds an entry
+`(pos, data)` in its leaf list, and that entry is what was hashed.  (Any identifier, any size.) -/
+theorem unspent_leaf_must_be_present (hf : HashFn α H) [DecidableEq H] (s : Segment α H) (size : Nat)
+    (bm : Option (Nat → Bool)) (mmrRoot : H) (h : s.validate hf size bm mmrRoot = .ok ())
+    (p : Nat) (hp : p ∈ s.id.positions size) (hleaf : height p = 0)
+    (hreq : required bm size p = true) :
+    ∃ x, (p, x) ∈ s.leafPos.zip s.leafData ∧ Ev.leaf p x ∈ segReads hf s size bm := by
+  obtain ⟨x0, hx0⟩ := fup_ok_of_validate hf s size bm mmrRoot h
+  obtain ⟨o, ho⟩ := root_ok_of_fup_ok hf s size bm x0 hx0
+  unfold Segment.root at ho
+  unfold segReads
+  exact rootWith_required hf s bm size _ _ _ o ho p hp hleaf hreq
+
+/-! ## Redundant extra hashes are not rejected -/
+
+/-- Hashes appended to the proof after the ones `reconstruct_root` consumes are ignored:
+an accepted segment stays accepted (matches the caveat in the property text; such segments are
+covered by the final-state clause, `never_finalise_wrong_roots`). -/
+theorem redundant_proof_hashes_not_rejected (hf : HashFn α H) [DecidableEq H] (s : Segment α H)
+    (extra : List H) (size : Nat) (bm : Option (Nat → Bool)) (mmrRoot : H)
+    (h : s.validate hf size bm mmrRoot = .ok ()) :
+    Segment.validate hf { s with proof := s.proof ++ extra } size bm mmrRoot = .ok () :=
+  validate_extra_proof_hashes hf s extra size bm mmrRoot h
+
+/-! ## Completeness
+
+Full statement intended (`segment_complete`):
+
+    theorem segment_complete (d : List α) (hs : List H) (hpush : pushAll hf [] d = some hs)
+        (r : H) (hroot : Pmmr.root hf hs = .ok r) (id : Ident)
+        (hne : id.unprunedSize hs.length ≠ 0) (hsmall : d.length < 2 ^ 62) (hh : id.height < 64) :
+        ∃ s, fromPmmr hf (vecView hs d) id false = .ok s ∧ s.validate hf hs.length none r = .ok ()
+
+(and its prunable variant over any view in which the data of every leaf the bitmap requires and
+the hash of every maximal pruned subtree are on file).  Not proven.  What is missing:
+(a) the node law of the hash vector `pushAll` builds (every parent is the hash of its children) —
+`pushLoop` invariant; (b) `fromPmmr` over `vecView` yields the leaf list `leavesOf …`;
+(c) the Merkle-path part: `reconstructRoot (generate …)` re-bags to `Pmmr.root` (family-branch and
+peaks arithmetic); (d) the final, not full segment.  Proven below: the segment-root part for
+full unpruned segments, relative to (a) as an explicit hypothesis.  Completeness is otherwise
+established by the correspondence run on the real code (every size ≤ 150/300 × heights 0..4 ×
+all indices × prune states: honest segment accepted). -/
+
+/-- **Completeness of the segment root (full, unpruned segment), relative to the node law**:
+if `hsAt` satisfies the MMR node law (leaf hash = hash of the leaf data, parent hash = hash of
+its two children — what `PMMR::validate` checks of the committed MMR) and the segment carries
+the data of every leaf of its range, then `Segment::root` returns the committed hash at the
+segment's last position.  Named gap to `segment_complete`: (a)–(d) above. -/
+theorem segment_complete_partial (hf : HashFn α H) (s : Segment α H) (size : Nat)
+    (hsAt : Nat → H) (dataAt : Nat → α)
+    (leafLaw : ∀ q, height q = 0 → hsAt q = hf.leaf q (dataAt q))
+    (nodeLaw : ∀ q k, height q = k + 1 → hsAt q = hf.node q (hsAt (q - 2 ^ (k + 1))) (hsAt (q - 1)))
+    (v : FullId s.id size) (rest : List (Nat × α))
+    (hleaves : s.leafPos.zip s.leafData = leavesOf dataAt (s.id.positions size) ++ rest) :
+    s.root hf size none = .ok (some (hsAt (lastOf s.id))) :=
+  root_complete_full hf s size hsAt dataAt leafLaw nodeLaw v rest hleaves
+
+/-- … and then every segment with the same identifier that has the same root carries exactly
+that leaf data: soundness of the segment root against the committed MMR. -/
+theorem segment_root_binds_leaves (hf : HashFn α H) (inj : Inj hf) (s0 s : Segment α H)
+    (hid : s0.id = s.id) (size : Nat) (hsAt : Nat → H) (dataAt : Nat → α)
+    (leafLaw : ∀ q, height q = 0 → hsAt q = hf.leaf q (dataAt q))
+    (nodeLaw : ∀ q k, height q = k + 1 → hsAt q = hf.node q (hsAt (q - 2 ^ (k + 1))) (hsAt (q - 1)))
+    (v : FullId s0.id size) (rest : List (Nat × α))
+    (hleaves : s0.leafPos.zip s0.leafData = leavesOf dataAt (s0.id.positions size) ++ rest)
+    (hs : s.root hf size none = .ok (some (hsAt (lastOf s0.id)))) :
+    segReads hf s0 size none = segReads hf s size none :=
+  (root_inj hf inj s0 s hid size none (wellFormed_full s0.id size v) _ _
+    (root_complete_full hf s0 size hsAt dataAt leafLaw nodeLaw v rest hleaves) hs).2 rfl
+
+/-! ## Identifier arithmetic of full segments -/
+
+/-- For a full segment (`height < 64`, the block of `2^height` leaves inside the MMR, leaf count
+below `2^62`) the wrapped u64 arithmetic of `segment_pos_range` is exact: the range is the
+post-order range of the subtree of height `height` above leaves `idx·2^height …`, and its last
+position has exactly that height. -/
+theorem full_segment_range (id : Ident) (size : Nat) (v : FullId id size) :
+    id.full size = true ∧
+    id.posRange size = (mmr (id.idx * 2 ^ id.height), lastOf id) ∧
+    id.positions size = treeRange id.height (lastOf id) ∧
+    height (lastOf id) = id.height ∧
+    (id.positions size).length = 2 ^ (id.height + 1) - 1 := by
+  obtain ⟨_, _, hf, hr⟩ := full_arith id size v
+  refine ⟨hf, hr, full_positions id size v, height_lastOf id, ?_⟩
+  rw [full_positions id size v]
+  simp [treeRange]
+
+/-- the loop of `Segment::root` over a full segment's range never runs the stack empty and leaves
+exactly one entry (its subtree root) -/
+theorem full_segment_well_formed (id : Ident) (size : Nat) (v : FullId id size) :
+    WellFormedRange id size := wellFormed_full id size v
+
+/-! ## The expected size of the bitmap MMR (`Desegmenter::calc_bitmap_mmr_sizes`) -/
+
+/-- For every leaf count `n ≥ 1` the last peak of the MMR with `n` leaves is its last position,
+so `1 + peaks(insertion_to_pmmr_index(n)).last()` (the expression used before the repair
+769a13f24, which panicked for `n = 1` through its eagerly evaluated fallback) equals
+`insertion_to_pmmr_index(n)` (the repaired expression). -/
+theorem bitmap_mmr_size_expression (n : Nat) (hn : 1 ≤ n) :
+    (peaks (insertionToPmmrIndex n)).getLast?.map (1 + ·) = some (insertionToPmmrIndex n) :=
+  one_add_last_peak n hn
+
+-- non-vacuity: one chunk (n = 1): the MMR of size 1 has the single peak 0
+example : (peaks 1).getLast?.map (1 + ·) = some 1 := by
+  have := bitmap_mmr_size_expression 1 (Nat.le_refl 1)
+  have e : insertionToPmmrIndex 1 = 1 := by simp [insertionToPmmrIndex, mmr, popcount]
+  rw [e] at this; exact this
+
+-- non-vacuity: segment (height 1, idx 1) of a 7-leaf MMR (size 11) is full; its range is 3..=5
+example : FullId ⟨1, 1⟩ 11 := by
+  have h : nLeaves 11 = 7 := by
+    have := GV.Props.C07.nLeaves_at_leaf_boundary 7
+    have e : mmr 7 = 11 := by simp [mmr, popcount]
+    rw [e] at this; exact this
+  exact ⟨by show 1 < 64; omega, by rw [h]; show (1 + 1) * 2 ^ 1 ≤ 7; omega, by rw [h]; omega⟩
 
 end GV.Props.C16
